@@ -13,5 +13,17 @@ PROPS = {
         "assumptions": ["IDs are valid UTF-8", "sort.SliceStable is stable; sort.Slice returns a sorted permutation (Go library contract)"],
         "explanation": "theorems C19_spec/C19_perm/C19_exactly_once over all declaration lists and all admissible behaviours of the unstable sort; correspondence: real WriteDeclarations vs Lean spec",
     },
+    "C17": {
+        "level": "proof",
+        "lean_modules": ["Gomacro.Props.C17"],
+        "prop_modules": ["Gomacro.Props.C17"],
+        "runners": ["C17"],
+        "trusted_base": [KERNEL,
+            "hand-written Lean model Gomacro/Paths.lean of analysis.commonPrefix (component lists; strings.Split/Join glue modelled by splitOn/intercalate and compared through the hook)",
+            "packages.Load, os.Stat, filepath.Abs are NOT modelled: loading, file->package matching and the error cases are covered by the on-disk correspondence runner only"],
+        "assumptions": ["directories handed to commonPrefix are cleaned absolute paths (filepath.Abs + filepath.Dir)", "the file system is closed under taking parent directories"],
+        "explanation": "theorems C17_root_ancestor / C17_root_greatest / C17_root_absolute / C17_root_exists for all directory lists; correspondence: hook commonPrefix vs model on every small directory set, real LoadSources on synthesised on-disk layouts incl. error cases",
+        "technique": "Lean 4 theorems (prefix order on component lists) + exhaustive/differential correspondence through a build-tag hook and real LoadSources runs",
+    },
 }
 NOT_APPLICABLE = {}
